@@ -139,8 +139,38 @@ def main(argv):
             mo = be.model(i, T, [{"k": "decfull", "hex": s.hex()} for _, s in uniq])
             if not isinstance(mo, list):
                 continue
-            for (kind, s), m in zip(uniq, mo):
+            # the Lean model of the parser python.rs emits (Pdlv.Py): compared with the emitted parser on every input
+            mpy = be.model(i, T, [{"k": "pydecfull", "hex": s.hex()} for _, s in uniq])
+            mpy = mpy if isinstance(mpy, list) else [None] * len(uniq)
+            # theorem python_parser_agrees_with_reference: hypothesis on this layout, statement evaluated on the inputs
+            hyp = be.model(i, T, [{"k": "len", "v": {}}])
+            pywf = bool(isinstance(hyp, list) and hyp[0].get("pywf"))
+            run.hist("theorem_hypotheses", "Py.wfBody:%s" % pywf)
+            if pywf:
+                for (kind, s), m, mp in zip(uniq, mo, mpy):
+                    if mp is None:
+                        continue
+                    run.count("theorem_instances")
+                    if (mp.get("r") == "ok") != (m.get("r") == "ok") or (mp.get("r") == "ok" and W.canon(mp.get("value")) != W.canon(m.get("value"))):
+                        run.violation("corr", "theorem python_parser_agrees_with_reference contradicted by evaluation on %s (model bug)" % T,
+                                      {"pdl": d["text"], "type": T, "input_hex": s.hex(), "corr": "thm:python_parser_agrees_with_reference"},
+                                      found_input=False)
+            for (kind, s), m, mp in zip(uniq, mo, mpy):
                 r = be.ask(i, T, "dec", s.hex())
+                # (an exception that is not a DecodeError, a hang or a crash of the emitted parser is judged by the
+                #  property's own oracle below; the parser model has DecodeErrors only)
+                if mp is not None and r.get("r") in ("ok", "err") and not (mp.get("r") == "panic" and mp.get("h") == "badLayout"):
+                    cls_r = {"ok": "ok", "err": "err"}.get(r.get("r"), "crash")
+                    cls_m = {"ok": "ok", "err": "err"}.get(mp.get("r"), "crash")
+                    same = cls_r == cls_m and (cls_r != "ok" or r.get("type") != T or W.canon(r.get("value")) == W.canon(mp.get("value")))
+                    run.hist("py_parser_model", "agree:" + cls_r if same else "disagree")
+                    if not same:
+                        run.violation("corr", "the model of the emitted Python parser (Pdlv.Py) and the emitted parser disagree on %s %s: %s vs %s"
+                                      % (T, s.hex()[:40], mp.get("r"), r.get("r")),
+                                      {"pdl": d["text"], "type": T, "input_hex": s.hex(), "python": r, "model": mp,
+                                       "corr": "corr:C13/py-parser-model"}, found_input=False)
+                else:
+                    run.hist("py_parser_model", "not-modelled")
                 run.case((d["text"], T, s))
                 run.hist("dec_outcomes", str(r.get("r")) + (":" + str(r.get("e")) if r.get("r") in ("err", "exception") else ""))
                 rep = {"pdl": d["text"], "type": T, "input_hex": s.hex(), "kind": kind, "python": r, "reference": m}
